@@ -565,3 +565,40 @@ def clone_value_cases():
                         if id(x) in mine:
                             return "%r: field %s of the clone holds the original's %s object" % (t, k, type(x).__name__)
     return True
+
+
+def writer_cases():
+    """to_list() on lines with 0-2 unwritable fields (a tag / a positional field whose value its datatype cannot encode): one entry per
+    field in order, the failing fields named in the `# INVALID` marker, the marker present iff something failed; virtual commentary"""
+    import gfapy
+    for vlevel in (0, 1, 2):
+        for bad_tag in (False, True):
+            for bad_pos in (False, True):
+                l = gfapy.Line("S\ta\t*\tLN:i:4\txx:Z:hello\tyy:i:3", vlevel=vlevel)
+                if bad_tag:
+                    l._data["yy"] = [1, "x"]            # a value the integer datatype cannot encode
+                if bad_pos:
+                    l._data["sequence"] = 5             # not a sequence
+                try:
+                    out = l.to_list()
+                except Exception as e:
+                    return "to_list raised %s (bad tag %s, bad field %s, level %d)" % (type(e).__name__, bad_tag, bad_pos, vlevel)
+                n = 1 + 2 + 3 + (1 if (bad_tag or bad_pos) else 0)
+                if len(out) != n:
+                    return "level %d bad tag %s bad field %s: %d entries %r, expected %d" % (vlevel, bad_tag, bad_pos, len(out), out, n)
+                if out[0] != "S" or out[1] != "a" or out[3] != "LN:i:4" or out[4] != "xx:Z:hello":
+                    return "fields out of order: %r" % (out,)
+                marker = [x for x in out if str(x).startswith("# INVALID")]
+                if bool(marker) != (bad_tag or bad_pos):
+                    return "marker %r with bad tag %s bad field %s" % (marker, bad_tag, bad_pos)
+                if marker:
+                    named = marker[0].split(":")[-1].strip().split(",")
+                    want = (["sequence"] if bad_pos else []) + (["yy"] if bad_tag else [])
+                    if named != want:
+                        return "marker names %s, expected %s" % (named, want)
+                if not bad_tag and out[5] != "yy:i:3":
+                    return "valid tag not written: %r" % (out,)
+    v = gfapy.Line("S\tvv\t*", virtual=True)
+    if v.to_list()[-1] != "co:Z:GFAPY_virtual_line" or "co:Z:GFAPY_virtual_line" in v.to_list(add_virtual_commentary=False):
+        return "virtual commentary wrong: %r" % (v.to_list(),)
+    return True
